@@ -6,7 +6,8 @@ import builtins
 import dataclasses
 from vlib import mdec
 
-PREFIX_PY = "/repo/hdl21/prefix.py"
+import os
+PREFIX_PY = os.environ.get("VERIF_REPO", "/repo") + "/hdl21/prefix.py"
 
 
 def load_prefix(path=PREFIX_PY):
